@@ -489,6 +489,82 @@ func init() {
 	_ = gocbcore.ErrTimeout
 }
 
+// ---- "exactly the server's outcome": the sequence numbers returned are the node's, all of them ----
+// The answer of GetVBucketSeqNos is a map filled from the nodes' replies: when the call returns without an error, every
+// vBucket the nodes reported is in it with the node's value - at the moment of the return, not a little later. Generated:
+// bucket size (64 / 256 / 1024 vBuckets), 1-3 nodes, the values, the number of back-to-back calls.
+type c20SeqNos struct {
+	NumVb   int    `json:"numvb"`
+	Servers int    `json:"servers"`
+	Base    uint64 `json:"base"`
+	Step    uint64 `json:"step"`
+	Calls   int    `json:"calls"`
+}
+
+func c20ExecSeqNos(sc c20SeqNos) string {
+	e := lbShared(sc.Servers, sc.NumVb, 0)
+	e.c.Lock()
+	for v := 0; v < sc.NumVb; v++ {
+		e.c.High[uint16(v)] = sc.Base + uint64(v)*sc.Step
+	}
+	e.c.Unlock()
+	for i := 0; i < sc.Calls; i++ {
+		m, err := e.client.GetVBucketSeqNos(false)
+		if err != nil {
+			return "HARNESS: healthy node, GetVBucketSeqNos failed: " + err.Error()
+		}
+		// inspected right at the return, as checkpoint.Load and the metric collector do
+		missing, wrong, first := 0, 0, -1
+		for v := 0; v < sc.NumVb; v++ {
+			got, ok := m.Load(uint16(v))
+			if !ok {
+				missing++
+			} else if got != sc.Base+uint64(v)*sc.Step {
+				wrong++
+			}
+			if (!ok || got != sc.Base+uint64(v)*sc.Step) && first < 0 {
+				first = v
+			}
+		}
+		if missing+wrong > 0 {
+			return fmt.Sprintf("call %d returned success, but at that moment %d of the %d vBuckets the node reported were missing from the result and %d had another value than the node's (first: vb %d): not the server's outcome", i, missing, sc.NumVb, wrong, first)
+		}
+	}
+	return ""
+}
+
+func TestC20_SeqNosComplete(t *testing.T) {
+	rapid.Check(t, func(rt *rapid.T) {
+		sc := c20SeqNos{NumVb: rapid.SampledFrom([]int{64, 256, 1024, 1024}).Draw(rt, "numvb"), Servers: rapid.IntRange(1, 3).Draw(rt, "servers"),
+			Base: rapid.Uint64Range(1, 1<<40).Draw(rt, "base"), Step: rapid.Uint64Range(0, 1000).Draw(rt, "step"), Calls: rapid.IntRange(1, 12).Draw(rt, "calls")}
+		journal("C20", "c20seqnos", sc)
+		d := c20ExecSeqNos(sc)
+		journalDone()
+		if strings.HasPrefix(d, "HARNESS") {
+			rt.Fatalf("%s", d)
+		}
+		if d != "" {
+			violation(rt, "C20", "c20seqnos", sc, "%s", d)
+		}
+		record("C20", sc, sc.NumVb >= 256, "seqnos_complete_cases")
+	})
+}
+
+func init() {
+	registerReplay("c20seqnos", func(raw json.RawMessage) string {
+		var sc c20SeqNos
+		if err := json.Unmarshal(raw, &sc); err != nil {
+			return err.Error()
+		}
+		for i := 0; i < 5; i++ { // a race between the return and the filling of the map: several attempts
+			if d := c20ExecSeqNos(sc); d != "" && !strings.HasPrefix(d, "HARNESS") {
+				return d
+			}
+		}
+		return ""
+	})
+}
+
 // repaired defect: its replay must hold now
 func TestC20_Fixed(t *testing.T) {
 	for _, f := range []string{"findings/C20_seqnos_error_dropped.json"} {
